@@ -193,6 +193,9 @@ Proofs/IoProofs.vos Proofs/IoProofs.vok Proofs/IoProofs.required_vos: Proofs/IoP
 Proofs/StCallsProofs.vo Proofs/StCallsProofs.glob Proofs/StCallsProofs.v.beautified Proofs/StCallsProofs.required_vo: Proofs/StCallsProofs.v Model/StCore.vo Model/StCalls.vo
 Proofs/StCallsProofs.vio: Proofs/StCallsProofs.v Model/StCore.vio Model/StCalls.vio
 Proofs/StCallsProofs.vos Proofs/StCallsProofs.vok Proofs/StCallsProofs.required_vos: Proofs/StCallsProofs.v Model/StCore.vos Model/StCalls.vos
+Proofs/StCallsTyping.vo Proofs/StCallsTyping.glob Proofs/StCallsTyping.v.beautified Proofs/StCallsTyping.required_vo: Proofs/StCallsTyping.v Model/StCore.vo Model/StTyping.vo Model/StCalls.vo Proofs/StProofs.vo Proofs/StCallsProofs.vo
+Proofs/StCallsTyping.vio: Proofs/StCallsTyping.v Model/StCore.vio Model/StTyping.vio Model/StCalls.vio Proofs/StProofs.vio Proofs/StCallsProofs.vio
+Proofs/StCallsTyping.vos Proofs/StCallsTyping.vok Proofs/StCallsTyping.required_vos: Proofs/StCallsTyping.v Model/StCore.vos Model/StTyping.vos Model/StCalls.vos Proofs/StProofs.vos Proofs/StCallsProofs.vos
 Proofs/StProofs.vo Proofs/StProofs.glob Proofs/StProofs.v.beautified Proofs/StProofs.required_vo: Proofs/StProofs.v Model/StCore.vo Model/StTyping.vo
 Proofs/StProofs.vio: Proofs/StProofs.v Model/StCore.vio Model/StTyping.vio
 Proofs/StProofs.vos Proofs/StProofs.vok Proofs/StProofs.required_vos: Proofs/StProofs.v Model/StCore.vos Model/StTyping.vos
